@@ -81,4 +81,15 @@ PLAN = {
         "covers_by_harness": {"VfC04_(Create|Update|Delete|Like|Announce|Add|Remove)": ["applied", "other", "wrapped", "no-callback"], "VfC04_Follow": ["auto-reply", "nothing", "other"]},
         "tiers": {"quick": {"params": {"nobj": 2, "ntargets": 2, "faults": 0}, "timeout_s": 1500}, "thorough": {"params": {"nobj": 2, "ntargets": 2, "faults": 1}, "timeout_s": 6000}},
     },
+    "C02": {
+        "level_text": "FederatingActor.Send of an activity whose 1..n recipients are spread by symbolic choice over to/bto/cc/bcc/audience, each an IRI, an embedded actor or the Public collection (two spellings), against a remote web that is an uninterpreted function of the IRI (actor with inbox, Collection/OrderedCollection and their pages with 0..k items that are again arbitrary IRIs - so shared, duplicated and cyclic collections arise by aliasing -, unknown type, garbled, unreachable), any subset of actors with an application-stored inbox, depth limit 1..d: the Dereference sequence and the recipient list of the single BatchDeliver equal those of a 25-line reference resolver over the same world; no duplicates, sender's inbox absent, Public never dereferenced, unreachable/garbled/unknown recipients skipped without failing.",
+        "level_note": "Trusted: symgo, stdlib models, cvc5, the reference resolver in harness/pub/zz_vf_c02.go; an actor's stored inbox equals the inbox of its own document; documents of a known non-actor type (a Note named as recipient) and actor documents without inbox are kept out of the menu here (C11 covers the latter)",
+        "pkg": "./pub",
+        "explanation": EXPL + "C02: differential harness - implementation vs reference resolver on a symbolic federation graph given by uninterpreted functions of the IRI.",
+        "bounds": "three slices: Addressing (<=2 [thorough 3] recipients, all with stored inbox, IRI / embedded / Public in two spellings, rotated over the five properties), Resolve (1 recipient, full web incl. pages, <=1 [2] items per collection, depth limit 1..2 [3]), Mixed (2 IRI recipients, stored or not, web without pages, <=1 item, depth 1..2)",
+        "outside": "more recipients/items/depth than the bounds; the bare word 'Public' as a recipient (not an IRI: the decoder keeps it as a non-IRI value)",
+        "assumptions": COMMON_ASSUME + ["Dereference of the same IRI returns the same document within one delivery"],
+        "tiers": {"quick": {"params": {"naddr": 2, "items": 1, "depth": 2, "pages": 1}, "harness": "VfC02_(Addressing|Resolve)", "timeout_s": 900, "bounds": "slices Addressing (<=2 recipients) and Resolve (1 recipient, <=1 item, depth 1..2, pages included); the Mixed slice runs in the thorough tier only"},
+                  "thorough": {"params": {"naddr": 3, "items": 2, "depth": 2, "pages": 1}, "timeout_s": 10000}},
+    },
 }
